@@ -6,13 +6,14 @@ const_expr / conditional … primary of parse.c as a recursive-descent parser ov
 `Gen/C10IfParseGen.lean` regenerated from parse.c on every run, the other functions pinned by the same translator).
 Specification: Spec/IfGrammar.lean (the grammar of C11 6.5 / 6.6 restricted to controlling expressions, as a derivation
 relation), Model/PPExpr.lean `ev` (C11 6.10.1p4 value of a tree).  Helper lemmas: Lemmas/IfParseLemmas.lean,
-Lemmas/IfParseGrammar.lean.
+Lemmas/IfParseGrammar.lean, Lemmas/IfParseFuel.lean.
 
 This closes the gap between `C10_ifexpr_partial` / `C10_groups` (Props/C10.lean), which start from an expression tree, and
 the token line the preprocessor actually has.
 -/
 import ChibiVerif.Props.C10
 import ChibiVerif.Lemmas.IfParseGrammar
+import ChibiVerif.Lemmas.IfParseFuel
 
 namespace ChibiVerif.Props.C10
 open ChibiVerif.CondIncl ChibiVerif.Spec.CondIncl ChibiVerif.PPExpr ChibiVerif.IfParse ChibiVerif.Spec.IfGrammar
@@ -54,6 +55,14 @@ theorem C10_ifparse_total (ts : List PTok) :
       have := h.1
       simp only [EKok, Bool.or_eq_true, beq_iff_eq] at this
       rcases this with rfl | rfl <;> simp [locate]
+
+/-- **C10 (#if parser, the fuel is immaterial).**  Any number of unfoldings above the number of tokens gives, for every entry
+    point, exactly the result of `length + 1` unfoldings: the parser is a function of the token list alone. -/
+theorem C10_ifparse_fuel (ts : List PTok) (m : IfParse.Mode) (f : Nat) (h : ts.length < f) :
+    parseN f m ts = parseN (ts.length + 1) m ts :=
+  parseN_stable ts m f h
+
+example : ([.num 1 false, .punct "+", .num 2 false] : List PTok).length < 100 := by decide
 
 /-- a line that uses every outcome: a tree; each of the four diagnostics with its position; a token outside the fragment -/
 example :
